@@ -174,7 +174,17 @@ def check_calls(wname, seq):
     return []
 
 
-REUSE_KINDS = ("array element", "array slice", "dict value", "dict-of-arrays element", "dict array replaced")
+REUSE_KINDS = ("array element", "array slice", "dict value", "dict-of-arrays element", "dict array replaced", "attribute record")
+
+
+class _Rec:
+    """A record object whose field is an attribute (what a row iterator that reuses one object per row hands out)."""
+
+    def __init__(self, x):
+        self.x = x
+
+    def __mul__(self, k):
+        return self.x * k
 REUSE_STEPS = ("mutate", "same", "fresh-equal")
 
 
@@ -191,6 +201,8 @@ def check_reused(wname, kind, steps):
             return np.array([1.0, 2.0, 3.0])
         if kind == "dict value":
             return {"x": 1.0}
+        if kind == "attribute record":
+            return _Rec(1.0)
         return {"x": np.array([1.0, 2.0, 3.0])}
 
     def mutate(o, n):
@@ -200,6 +212,8 @@ def check_reused(wname, kind, steps):
             o[:] = o[::-1].copy() + n
         elif kind == "dict value":
             o["x"] = 10.0 + n
+        elif kind == "attribute record":
+            o.x = 10.0 + n
         elif kind == "dict-of-arrays element":
             o["x"][1] = 10.0 + n
         else:
@@ -219,11 +233,12 @@ def check_reused(wname, kind, steps):
             elif st == "same":
                 arg = o
             else:
-                arg = {k: snap(v) for k, v in o.items()} if isinstance(o, dict) else o.copy()
+                arg = {k: snap(v) for k, v in o.items()} if isinstance(o, dict) else (_Rec(o.x) if isinstance(o, _Rec) else o.copy())
             want = snap(raw(arg))
             got = w(arg)
             if not same_value(got, want):
-                return [FW.violation(PROP, "reused-argument", ("cached" if "cached" in wname else wname.split("(")[0]) + " wrapper",
+                return [FW.violation(PROP, "reused-argument", ("cached" if "cached" in wname else wname.split("(")[0]) + " wrapper" +
+                                     (" (record object)" if kind == "attribute record" else ""),
                                      "stale-result-for-an-argument-changed-in-place" if st == "mutate" else
                                      "wrong-result-for-an-unchanged-or-fresh-argument", args,
                                      {"step": n, "got": repr(got)[:80], "expected": repr(want)[:80]})]
